@@ -2,6 +2,7 @@ package props
 
 import (
 	"bytes"
+	"errors"
 	"fmt"
 	"testing"
 
@@ -9,6 +10,8 @@ import (
 
 	"github.com/cloudwego/gopkg/bufiox"
 	"github.com/cloudwego/gopkg/protocol/thrift"
+	"github.com/cloudwego/gopkg/protocol/thrift/base"
+	uf "github.com/cloudwego/gopkg/protocol/thrift/unknownfields"
 	"github.com/cloudwego/gopkg/verifharness/evid"
 	"github.com/cloudwego/gopkg/verifharness/faultio"
 )
@@ -170,4 +173,150 @@ func TestC16_Connection(t *testing.T) {
 		}
 		return c
 	}, checkConn)
+}
+
+// ---- the span-cache switch must not change any result, failures included ----------------------------------
+
+func TestC16_SpanErrors(t *testing.T) {
+	rec := evid.New("C16", "c16_span_errors", "enumeration: every strict prefix and three negative-size variants of five valid encodings (a 9-byte and a 300-byte string, a message header, an ApplicationException body, a Base body with a map) given to Binary.ReadString, Binary.ReadBinary, Binary.ReadMessageBegin, ApplicationException.FastRead, Base.FastRead and ConvertUnknownFields with the span cache off and on: value, consumed length, error text and exception type id must be identical under both settings; every (entry point, input) is one evaluation; distinct by construction")
+	defer rec.Flush()
+	rec.Assume("the span-cache switch is flipped between (sequential) calls only")
+	defer thrift.SetSpanCache(false)
+	str := func(n int) []byte { return append(ref32(nil, n), patternBytes(7, n)...) }
+	aeBody := append(append([]byte{0x0b, 0, 1}, str(200)...), 0x08, 0, 2, 0, 0, 0, 6, 0)
+	baseBody := append(append(append([]byte{0x0b, 0, 1}, str(150)...), 0x0d, 0, 6, 0x0b, 0x0b, 0, 0, 0, 1), append(str(130), str(140)...)...)
+	baseBody = append(baseBody, 0)
+	valids := [][]byte{str(9), str(300), refMsgHeader(string(patternBytes(3, 140)), 1, 5), aeBody, baseBody}
+	type result struct {
+		val  string
+		n    int
+		etxt string
+		tid  int32
+	}
+	describe := func(val string, n int, err error) result {
+		r := result{val: val, n: n, tid: -1}
+		if err != nil {
+			r.etxt = err.Error()
+			var te interface{ TypeId() int32 }
+			if errors.As(err, &te) {
+				r.tid = te.TypeId()
+			}
+		}
+		return r
+	}
+	entries := []struct {
+		name string
+		f    func(b []byte) result
+	}{
+		{"Binary.ReadString", func(b []byte) result { s, n, e := thrift.Binary.ReadString(b); return describe(s, n, e) }},
+		{"Binary.ReadBinary", func(b []byte) result { s, n, e := thrift.Binary.ReadBinary(b); return describe(string(s), n, e) }},
+		{"Binary.ReadMessageBegin", func(b []byte) result {
+			s, _, _, n, e := thrift.Binary.ReadMessageBegin(b)
+			return describe(s, n, e)
+		}},
+		{"ApplicationException.FastRead", func(b []byte) result {
+			var ae thrift.ApplicationException
+			n, e := ae.FastRead(b)
+			return describe(ae.Msg(), n, e)
+		}},
+		{"Base.FastRead", func(b []byte) result {
+			var bs base.Base
+			n, e := bs.FastRead(b)
+			return describe(bs.LogID+"|"+fmt.Sprint(len(bs.Extra)), n, e)
+		}},
+		{"ConvertUnknownFields", func(b []byte) result {
+			fs, e := uf.ConvertUnknownFields(b)
+			return describe(fmt.Sprint(len(fs)), 0, e)
+		}},
+	}
+	bt := evid.NewBatch()
+	for vi, valid := range valids {
+		var inputs [][]byte
+		for cut := 0; cut <= len(valid); cut++ {
+			inputs = append(inputs, valid[:cut:cut])
+		}
+		for _, at := range []int{0, 3, 7} {
+			if at+4 <= len(valid) {
+				neg := append([]byte(nil), valid...)
+				neg[at], neg[at+1], neg[at+2], neg[at+3] = 0xff, 0xff, 0xff, 0xff
+				inputs = append(inputs, neg)
+			}
+		}
+		for _, ep := range entries {
+			for ii, in := range inputs {
+				var off, on result
+				p, st := evid.Safe(func() {
+					thrift.SetSpanCache(false)
+					off = ep.f(append([]byte(nil), in...))
+					thrift.SetSpanCache(true)
+					on = ep.f(append([]byte(nil), in...))
+					thrift.SetSpanCache(false)
+				})
+				bt.Evals++
+				bt.Distinct++
+				if off.etxt != "" {
+					bt.Nontrivial++
+				}
+				var viol *evid.Violation
+				if p != nil {
+					viol = &evid.Violation{Msg: fmt.Sprintf("%s panicked: %v", ep.name, p), Stack: st}
+				} else if off != on {
+					viol = evid.Failf("%s on input %d of encoding %d (%d bytes): with the span cache off the result is (value of %d bytes, n=%d, error %q, type id %d), with it on (value of %d bytes, n=%d, error %q, type id %d)", ep.name, ii, vi, len(in), len(off.val), off.n, off.etxt, off.tid, len(on.val), on.n, on.etxt, on.tid)
+				}
+				if viol != nil {
+					failEnum(t, rec, "c16_span_errors", struct {
+						Entry string   `json:"entry"`
+						In    evid.Hex `json:"in"`
+					}{ep.name, in}, viol)
+					rec.Merge(bt)
+					return
+				}
+			}
+		}
+	}
+	rec.Merge(bt)
+	rec.SetExhaustive()
+}
+
+func init() {
+	register("c16_span_errors", func(c struct {
+		Entry string   `json:"entry"`
+		In    evid.Hex `json:"in"`
+	}, cv *cov) *evid.Violation {
+		defer thrift.SetSpanCache(false)
+		in := []byte(c.In)
+		run := func(on bool) (string, string) {
+			thrift.SetSpanCache(on)
+			b := append([]byte(nil), in...)
+			switch c.Entry {
+			case "Binary.ReadString":
+				s, _, e := thrift.Binary.ReadString(b)
+				return s, fmt.Sprint(e)
+			case "Binary.ReadBinary":
+				s, _, e := thrift.Binary.ReadBinary(b)
+				return string(s), fmt.Sprint(e)
+			case "Binary.ReadMessageBegin":
+				s, _, _, _, e := thrift.Binary.ReadMessageBegin(b)
+				return s, fmt.Sprint(e)
+			case "ApplicationException.FastRead":
+				var ae thrift.ApplicationException
+				_, e := ae.FastRead(b)
+				return ae.Msg(), fmt.Sprint(e)
+			case "Base.FastRead":
+				var bs base.Base
+				_, e := bs.FastRead(b)
+				return bs.LogID, fmt.Sprint(e)
+			default:
+				fs, e := uf.ConvertUnknownFields(b)
+				return fmt.Sprint(len(fs)), fmt.Sprint(e)
+			}
+		}
+		v0, e0 := run(false)
+		v1, e1 := run(true)
+		cv.nontrivial = true
+		if v0 != v1 || e0 != e1 {
+			return evid.Failf("%s: span cache off gives (%d-byte value, %q), on gives (%d-byte value, %q)", c.Entry, len(v0), e0, len(v1), e1)
+		}
+		return nil
+	})
 }
